@@ -41,3 +41,10 @@ template Predecessors findVertexPredecessors<LabeledDirectedGraph, NoLabel>(cons
 template Predecessors findVertexPredecessors<LabeledUndirectedGraph, NoLabel>(const LabeledUndirectedGraph<NoLabel> &, VertexIndex);
 template MultiplePredecessors findAllVertexPredecessors<LabeledDirectedGraph, NoLabel>(const LabeledDirectedGraph<NoLabel> &, VertexIndex);
 }}
+// ---- edge-sequence constructors (C09)
+namespace BaseGraph {
+template LabeledDirectedGraph<NoLabel>::LabeledDirectedGraph(const std::list<Edge> &, long long *);
+template LabeledUndirectedGraph<NoLabel>::LabeledUndirectedGraph(const std::list<Edge> &, long long *);
+template LabeledDirectedGraph<VLabel>::LabeledDirectedGraph(const std::list<LabeledEdge<VLabel>> &);
+template LabeledUndirectedGraph<VLabel>::LabeledUndirectedGraph(const std::list<LabeledEdge<VLabel>> &);
+}
